@@ -80,6 +80,8 @@ impl<R: BlockRead + Unpin> FrameReader<R> {
 
     // Reads the next frame.
     pub fn read_frame(&mut self) -> Result<(FrameType, &[u8]), ReadFrameError> {
+        #[cfg(mrecordlog_verif)]
+        crate::verif_hooks::tick();
         self.go_to_next_block_if_necessary()?;
         let header = self.get_frame_header()?;
         self.cursor += HEADER_LEN;
